@@ -38,6 +38,7 @@ def generate(seed: int, tier: str = "quick") -> Dict[str, Any]:
         "pool": rc.choice([0, 2, 4, 8]),  # >0: expressions come from a small per-run pool (repeats)
         "reuse": rc.choice([0.0, 0.3, 0.6]),
         "shape": rc.choice(["random", "random", "random", "matrix"]),
+        "features": rc.sample(sorted(gen.FEATURES), rc.choice([0, 0, 1, 2])),
         # override focus: programs that call size() with and without a host function named size
         "size_focus": rc.random() < 0.2,
         "deep_share": rc.choice([0.0, 0.0, 0.0, 0.2]),
@@ -75,7 +76,8 @@ def generate(seed: int, tier: str = "quick") -> Dict[str, Any]:
             all_decls.update(gen.decl_map(e["cfg"]["decls"]))
         for _ in range(rw.choice([1, 1, 2, 3])):
             text = gen.gen_expr(rw, all_decls or gen.DECL_SETS["flat"], salt=rw.randrange(0, 3),
-                                size_focus=cfg["size_focus"], deep_share=cfg["deep_share"])
+                                size_focus=cfg["size_focus"], deep_share=cfg["deep_share"],
+                                features=cfg["features"])
             order = list(range(n_env))
             rw.shuffle(order)
             for ei in order:
@@ -126,7 +128,7 @@ def generate(seed: int, tier: str = "quick") -> Dict[str, Any]:
                 text = gen.gen_expr(rw, decls, salt=rw.randrange(0, 3),
                                     host=[h for h in host if h != "size"],
                                     size_focus=cfg["size_focus"],
-                                    deep_share=cfg["deep_share"])
+                                    deep_share=cfg["deep_share"], features=cfg["features"])
                 text_pool.setdefault(pool_key, []).append(text)
             op = {"op": "K", "id": len(asts), "env": e["id"], "text": text, "host": host}
             asts.append({"id": op["id"], "env": e["id"], "host": host, "progd": False,
